@@ -48,6 +48,7 @@ def observe(spec, inputs):
         _clear_caches(n)
         c0 = plspec.build(n, base, env)
         out["before"] = _snap(n, c0)
+        out["orig_id"] = str(c0.id)
         cur = c0
         for r in added:
             try:
@@ -61,7 +62,7 @@ def observe(spec, inputs):
         out["chain"] = _snap(n, cur)
         out["chain_id"] = str(cur.id)
         if spec["clash"] is None and out["raised"] is None:
-            direct = plspec.build(n, {"t": "SC", "id": base["id"], "ch": list(base["ch"]) + list(added)}, env)
+            direct = plspec.build(n, {"t": "SC", "id": (c0.id if spec.get("genid") else base["id"]), "ch": list(base["ch"]) + list(added)}, env)
             out["direct"] = _snap(n, direct)
             out["prios_equal"] = cur.default_prios == direct.default_prios
             _clear_caches(n)
@@ -99,7 +100,7 @@ def judge(spec, inputs, out, ob):
         else:
             if _t(out["chain"]) != _t(out["direct"]):
                 bad.append("add-chain result differs structurally from direct construction")
-            if out["chain_id"] != str(spec["model"]["id"]):
+            if out["chain_id"] != out["orig_id"]:
                 bad.append("configurator id not kept")
             if not out["prios_equal"]:
                 bad.append("default priorities differ")
